@@ -4,6 +4,7 @@ CONSTANTS
   MaxT = 1
   Kinds = {"way"}
   UnannChoices = {0}
+  LocKinds = {"n"}
   BreakAtLate = FALSE
 INIT GInit
 NEXT GNext
